@@ -301,10 +301,10 @@ func (s *Solver) Solve(o *Obligation) {
 		}
 	}
 	// A timeout may be load-induced (several checks sharing the machine). Retry a bounded number of such obligations
-	// one at a time with three times the budget before reporting them undischarged.
+	// (four) one at a time with twice the budget before reporting them undischarged.
 	if best.status == "timeout" && !o.Smoke {
 		s.mu.Lock()
-		retry := s.retries < 6 && os.Getenv("GOVC_NORETRY") == ""
+		retry := s.retries < 4 && os.Getenv("GOVC_NORETRY") == ""
 		if retry {
 			s.retries++
 		}
@@ -314,7 +314,7 @@ func (s *Solver) Solve(o *Obligation) {
 			rctx, rcancel := context.WithCancel(context.Background())
 			rch := make(chan solveResult, len(cfgs))
 			for _, c := range cfgs {
-				go func(c SolverCfg) { rch <- runSolver(rctx, c, file, 3*timeout) }(c)
+				go func(c SolverCfg) { rch <- runSolver(rctx, c, file, 2*timeout) }(c)
 			}
 			for range cfgs {
 				r := <-rch
